@@ -345,7 +345,46 @@ def g9(rng):
     return out
 
 
-FAMILIES = [("G1", g1), ("G2", g2), ("G3", g3), ("G4", g4), ("G5", g5), ("G6", g6), ("G7", g7), ("G8", g8), ("G9", g9)]
+def g10(rng):
+    """Lifetime laundering: a value moved out through a macro must keep the lifetime it had inside the aggregate.  The
+    invalid program returns the binding as `'static`, the control returns it with the input's lifetime.  (The borrow
+    checker only enforces what the expansion expresses in reachable code.)"""
+    out = []
+
+    def pair(name, sig_in, ret_ty, body, ret_expr, decl=""):
+        inv = HEAD + decl + "pub fn f<'a>(v: %s) -> %s { %s %s }\n" % (sig_in, ret_ty.replace("'r", "'static"), body, ret_expr)
+        ctl = HEAD + decl + "pub fn f<'a>(v: %s) -> %s { %s %s }\n" % (sig_in, ret_ty.replace("'r", "'a"), body, ret_expr)
+        out.append(("G10/" + name, inv, ctl))
+
+    # arrays: single elements and `rest @ ..` in every position
+    pair("array/elem", "[&'a str; 3]", "&'r str", "konst::destructure!{[x, _y, _z] = v}", "x")
+    pair("array/rest-suffix", "[&'a str; 3]", "[&'r str; 2]", "konst::destructure!{[_x, rest @ ..] = v}", "rest")
+    pair("array/rest-prefix", "[&'a str; 3]", "[&'r str; 2]", "konst::destructure!{[rest @ .., _z] = v}", "rest")
+    pair("array/rest-middle", "[&'a str; 4]", "[&'r str; 2]", "konst::destructure!{[_x, rest @ .., _z] = v}", "rest")
+    pair("array/rest-all", "[&'a str; 2]", "[&'r str; 2]", "konst::destructure!{[rest @ ..] = v}", "rest")
+    pair("array/rest-empty", "[&'a str; 2]", "[&'r str; 0]", "konst::destructure!{[_x, rest @ .., _z] = v}", "rest")
+    pair("array/elem-next-to-rest", "[&'a str; 3]", "&'r str", "konst::destructure!{[x, _rest @ ..] = v}", "x")
+    pair("array/annotated-rest", "[&'a str; 3]", "[&'r str; 2]", "konst::destructure!{[_x, rest @ ..]: [&str; 3] = v}", "rest")
+    pair("array/rest-of-slices", "[&'a [u8]; 3]", "[&'r [u8]; 2]", "konst::destructure!{[_x, rest @ ..] = v}", "rest")
+    pair("array/rest-of-mut-refs", "[&'a mut u8; 3]", "[&'r mut u8; 2]", "konst::destructure!{[_x, rest @ ..] = v}", "rest")
+    # tuples, structs
+    pair("tuple/elem", "(&'a str, u8)", "&'r str", "konst::destructure!{(x, _n) = v}", "x")
+    pair("tuple/annotated", "(&'a str, u8)", "&'r str", "konst::destructure!{(x, _n): (&str, u8) = v}", "x")
+    pair("braced/field", "S<'a>", "&'r str", "konst::destructure!{S{a, b: _} = v}", "a", decl="pub struct S<'x> { a: &'x str, b: u8 }\n")
+    pair("braced/type-form", "S<'a>", "&'r str", "konst::destructure!{S<'_> {a, b: _} = v}", "a", decl="pub struct S<'x> { a: &'x str, b: u8 }\n")
+    pair("tuple_struct/field", "S<'a>", "&'r str", "konst::destructure!{S(a, _) = v}", "a", decl="pub struct S<'x>(&'x str, u8);\n")
+    pair("nested/array-in-tuple", "([&'a str; 2], u8)", "&'r str", "konst::destructure!{(arr, _n) = v} konst::destructure!{[x, _y] = arr}", "x")
+    # the other macros that hand a value out of an aggregate
+    pair("array_map", "[&'a str; 2]", "[&'r str; 2]", "let r = konst::array::map!(v, |x| x);", "r")
+    pair("array_map_", "[&'a str; 2]", "[&'r str; 2]", "let r = konst::array::map_!(v, |x| x);", "r")
+    pair("option_map", "Option<&'a str>", "Option<&'r str>", "let r = konst::option::map!(v, |x| x);", "r")
+    pair("option_unwrap_or", "Option<&'a str>", "&'r str", "let r = konst::option::unwrap_or!(v, \"\");", "r")
+    pair("rebind", "Result<(&'a str, u8), u8>", "&'r str", "let mut s: &str = \"\"; let mut n = 0u8; konst::rebind_if_ok!{(s, n) = v}", "s")
+    pair("collect_const-free/iter_eval", "&'a [&'a str]", "Option<&'r str>", "let r = konst::iter::eval!(v, copied(), next());", "r")
+    return out
+
+
+FAMILIES = [("G1", g1), ("G2", g2), ("G3", g3), ("G4", g4), ("G5", g5), ("G6", g6), ("G7", g7), ("G8", g8), ("G9", g9), ("G10", g10)]
 
 
 def all_cases(seed, tier):
@@ -430,7 +469,7 @@ def run(prop, tier, seed, out, timeout, **kw):
         for v in violations:
             if v[0].startswith(("G1/braced/fields=0/", "G1/tuple_struct/fields=0/")):
                 labels["sound_acceptance_not_counted"] = labels.get("sound_acceptance_not_counted", 0) + 1
-            elif v[0].startswith(("G1/", "G2/")):
+            elif v[0].startswith(("G1/", "G2/", "G10/")):
                 kept.append(v)
             else:
                 labels["not_a_soundness_matter"] = labels.get("not_a_soundness_matter", 0) + 1
